@@ -109,6 +109,10 @@ UNIT = {
                 'r is Ok && cond is Signal ==> inv(Some(*final(self)), final(system).installed(cond->Signal_0))',
                 'cond is Signal ==> others_unchanged(*old(system), *final(system), cond->Signal_0)',
                 'cond is Exit ==> all_unchanged(*old(system), *final(system))',
+                # the only way to fail is a refusal by the system; what the system refuses is not changed by the call
+                'cond is Exit ==> r is Ok',
+                'cond is Signal && (forall|d: Disposition| !old(system).refuses(cond->Signal_0, d)) ==> r is Ok',
+                'forall|s: signal::Number, d: Disposition| final(system).refuses(s, d) == old(system).refuses(s, d)',
             ])),
         (STATE, ['impl GrandState', 'fn ignore'], dict(ASYNC, ret='r',
             requires=['vacant.spec_key() is Signal'],
@@ -122,6 +126,8 @@ UNIT = {
                 'r is Ok ==> (vacant.final_value()->0.cur().origin == Origin::Inherited <==> old(system).installed(vacant.spec_key()->Signal_0) == Disposition::Ignore)',
                 'others_unchanged(*old(system), *final(system), vacant.spec_key()->Signal_0)',
                 'r is Err ==> vacant.final_value() is None && all_unchanged(*old(system), *final(system))',
+                '(forall|d: Disposition| !old(system).refuses(vacant.spec_key()->Signal_0, d)) ==> r is Ok',
+                'forall|s: signal::Number, d: Disposition| final(system).refuses(s, d) == old(system).refuses(s, d)',
             ])),
         (STATE, ['impl GrandState', 'fn mark_as_caught'], {'ensures': [
             'final(self).cur() == (TrapState { action: old(self).cur().action, origin: old(self).cur().origin, pending: true })',
@@ -137,10 +143,63 @@ UNIT = {
         ('@file', 'prelude_set2.rs'),
         (STATE, ['impl GrandState', 'fn clear_parent_state'], {'ensures': [
             'final(self).parent() is None && final(self).cur() == old(self).cur() && final(self).internal() == old(self).internal()']}),
-        # `for state in self.traps.values_mut()`: iteration over values_mut is outside Verus's subset; the contract of
-        # this three-line loop over `clear_parent_state` (verified above) is ASSUMED.
-        (TRAP, ['impl TrapSet', 'fn clear_parent_states'], {'attrs': ['#[verifier::external_body]'], 'ensures': [
-            'parents_cleared(old(self).tab(), final(self).tab())']}),
+        # `for state in self.traps.values_mut()` is checked as a `while let` over the model iterator of prelude_set2.rs
+        # (rule tokens-to-helper; the invariant travels with the replacement text)
+        (TRAP, ['impl TrapSet', 'fn clear_parent_states'], {
+            'attrs': ['#[verifier::loop_isolation(false)]'],
+            'token_rewrites': [('for state in self . traps . values_mut ( ) {',
+                'let mut verif_it = verif_iter_mut(&mut self.traps); let ghost verif_slots = verif_it.slots();\n'
+                '        while let Some((_verif_k, state)) = verif_it.next()\n'
+                '            invariant\n'
+                '                verif_it.slots() == verif_slots,\n'
+                '                verif_it.todo().subset_of(old(self).tab().dom()),\n'
+                '                forall|c: Condition| #[trigger] old(self).tab().contains_key(c) && !verif_it.todo().contains(c) ==> (*final(verif_slots[c])).cur() == old(self).tab()[c].cur() && (*final(verif_slots[c])).internal() == old(self).tab()[c].internal() && (*final(verif_slots[c])).parent() is None,\n'
+                '            decreases verif_it.todo().len(),\n'
+                '        {')],
+            'ensures': ['parents_cleared(old(self).tab(), final(self).tab())']}),
+        (STATE, ['impl GrandState', 'fn internal_disposition'], {'ret': 'r', 'ensures': ['r == self.internal()']}),
+        # C08 (last sentence) and C11 on the table: subshell entry.  The two `for` loops are checked as `while` loops over
+        # the model iterator / over the two array elements (rule tokens-to-helper; invariants travel with the replacement).
+        (TRAP, ['impl TrapSet', 'fn enter_subshell'], dict(ASYNC,
+            attrs=['#[verifier::loop_isolation(false)]'],
+            token_rewrites=[
+                ('for ( & cond , state ) in & mut self . traps {',
+                 'let ghost verif_t1 = self.tab(); let ghost verif_sys1 = *system;\n'
+                 '        let mut verif_it = verif_iter_mut(&mut self.traps); let ghost verif_slots = verif_it.slots();\n'
+                 '        while let Some((verif_k, state)) = verif_it.next()\n'
+                 '            invariant\n'
+                 '                verif_it.slots() == verif_slots,\n'
+                 '                verif_it.todo().subset_of(verif_t1.dom()),\n'
+                 '                loop1_inv::<S>(verif_t1, verif_slots, verif_it.todo(), verif_sys1, *system, ignore_sigint_sigquit, keep_internal_dispositions_for_stoppers),\n'
+                 '            decreases verif_it.todo().len(),\n'
+                 '        { let cond = *verif_k;'),
+                ('for signal in [ S :: SIGINT , S :: SIGQUIT ] {',
+                 'let ghost verif_t2 = self.tab(); let ghost verif_sys2 = *system;\n'
+                 '            let verif_arr = [S::SIGINT, S::SIGQUIT]; let mut verif_i: usize = 0;\n'
+                 '            while verif_i < 2\n'
+                 '                invariant\n'
+                 '                    verif_i <= 2, verif_arr@.len() == 2, verif_arr@[0] == S::SIGINT, verif_arr@[1] == S::SIGQUIT,\n'
+                 '                    loop2_inv::<S>(verif_t2, self.tab(), verif_sys2, *system, verif_i as int),\n'
+                 '                decreases 2 - verif_i,\n'
+                 '            { let signal = verif_arr[verif_i]; verif_i += 1;'),
+            ],
+            requires=['tinv(old(self).tab(), *old(system))'],
+            ensures=[
+                # C11: the table invariant holds again (for a system that carries out what it is asked; errors are ignored by design)
+                'norefuse(*old(system)) ==> tinv(final(self).tab(), *final(system))',
+                # no record disappears; the only records that may appear are those of SIGINT and SIGQUIT, when they are to be ignored
+                'forall|c: Condition| #[trigger] old(self).tab().contains_key(c) ==> final(self).tab().contains_key(c)',
+                'forall|c: Condition| #[trigger] final(self).tab().contains_key(c) && !old(self).tab().contains_key(c) ==> ignore_sigint_sigquit && (c == Condition::Signal(S::SIGINT) || c == Condition::Signal(S::SIGQUIT))',
+                # C08: "traps with command actions are reset to default while ignored signals stay ignored"; the trap that was
+                # reset is remembered as the parent state, and no other parent state survives
+                'forall|c: Condition| #[trigger] old(self).tab().contains_key(c) ==> parent_entered(old(self).tab()[c], final(self).tab()[c])',
+                'norefuse(*old(system)) && chld_distinct::<S>() ==> forall|c: Condition| #[trigger] old(self).tab().contains_key(c) ==> rec_entered::<S>(c, old(self).tab()[c], final(self).tab()[c], ignore_sigint_sigquit, keep_internal_dispositions_for_stoppers)',
+                # an asynchronous list without job control: SIGINT and SIGQUIT are ignored from now on, whatever was known about them
+                'norefuse(*old(system)) && chld_distinct::<S>() && ignore_sigint_sigquit ==> final(self).tab().contains_key(Condition::Signal(S::SIGINT)) && final(self).tab()[Condition::Signal(S::SIGINT)].cur().action == Action::Ignore && final(system).installed(S::SIGINT) == Disposition::Ignore',
+                'norefuse(*old(system)) && chld_distinct::<S>() && ignore_sigint_sigquit ==> final(self).tab().contains_key(Condition::Signal(S::SIGQUIT)) && final(self).tab()[Condition::Signal(S::SIGQUIT)].cur().action == Action::Ignore && final(system).installed(S::SIGQUIT) == Disposition::Ignore',
+                # signals the table knows nothing about keep their disposition unless they are SIGINT / SIGQUIT to be ignored
+                'forall|s: signal::Number| !(#[trigger] final(self).tab().contains_key(Condition::Signal(s))) ==> final(system).installed(s) == old(system).installed(s)',
+            ])),
         (TRAP, ['impl TrapSet', 'fn set_action_impl'], dict(ASYNC, ret='r',
             requires=['tinv(old(self).tab(), *old(system))'],
             ensures=[
